@@ -49,7 +49,7 @@ PROPERTIES = {
                  "every truncation, 4 single-byte corruptions per position, every 4-byte window (first 64 positions) overwritten with 4 hostile lengths, random strings "
                  "into the same and into arbitrary types, dedicated length-bomb inputs, ReadInto on every truncation of a list encoding; each decode "
                  "into a variable holding a random old value. outcome (value+consumed | error class | panic) compared with the model; monitors: "
-                 "panic, child death, timeout, allocation > 64*|input|+64KiB+8*sizeof(type), target changed by a failed Read. "
+                 "panic, child death, timeout (15 s per case), decode slower than 200 ms + 50 us/byte (confirmed by the fastest of 3 re-runs), allocation > 64*|input|+64KiB+8*sizeof(type), target changed by a failed Read. "
                  "non-trivial = all; distinct = distinct input terms"),
         "modelled_not_verified": [
             "allocation is modelled as bytes requested from the allocator by Read (MakeSlice/New/make), Go struct padding ignored; the runtime's out-of-memory behaviour itself is observed, not modelled",
